@@ -3,12 +3,15 @@ C17 — State-time accounting partitions elapsed time and reflects actual activi
 Proved here: the arithmetic core of `Machine.update_state_rep` — for every representation
 (#processing, #blocked) with non-negative entries the elapsed time is charged to exactly one state
 of each documented group, and never to SETUP — and its inductive step on the automaton state
-(`updRep_mstat`), plus the occupancy-histogram step.  The induction over all activation sequences
-of the whole machine automaton, Source/Sink sums and the float-rounding half are not proved (the
-correspondence check compares every entry of the statistics after every activation, and the
-judge checks the partition after `update_final_state_time(T)`).
+(`updRep_mstat`), plus the occupancy-histogram step; and, for EVERY activation sequence, the partition
+for Source and Sink (`source_time_partition`, `sink_time_partition`: the per-state totals add up to
+last state change − start, and the last change never lies in the future).  The induction over all
+activation sequences of the whole MACHINE automaton and the float-rounding half are not proved (the
+correspondence check compares every entry of the statistics after every activation, and the judge
+checks the partition after `update_final_state_time(T)`).
 -/
 import FsVerif.Proofs.MachineStat
+import FsVerif.Proofs.NodeClock
 namespace FsVerif.Props.C17
 open FsVerif MacState
 
@@ -41,5 +44,35 @@ theorem occupancy_step {s : MacState} {t : Nat} (h : MStat s) (ht : s.now = t) (
   exact ⟨h1, h2⟩
 
 example : sumA (({} : MTT).bump 2 1 5) = 5 ∧ sumB (({} : MTT).bump 2 1 5) = 5 := by decide
+
+/-! ### Source and Sink: the partition over all activation sequences -/
+
+/-- Sink (one state): after any activation sequence its total is exactly the time from construction to the last recorded state change,
+    which is not in the future -/
+theorem sink_time_partition (n : Nat) (acts : List SinkState.Act) :
+    let s := SinkState.runActs (SinkState.init n) acts
+    ∃ l, s.clock.last = some l ∧ l ≤ s.now ∧ s.clock.tot.sum = l := by
+  have h := SinkState.run_sk acts (SinkState.init_sk n)
+  obtain ⟨⟨_, hl⟩, _, hn⟩ := h
+  cases hlast : (SinkState.runActs (SinkState.init n) acts).clock.last with
+  | none => exact absurd hlast hn
+  | some l =>
+    rw [hlast] at hl
+    obtain ⟨h1, t0, h2, _, h4⟩ := hl
+    have : t0 = 0 := by cases h2; rfl
+    subst this
+    exact ⟨l, hlast, h1, by simpa using h4⟩
+
+/-- Source (SETUP / GENERATING / BLOCKED): after any activation sequence the model accepts, the three totals add up to the time from
+    its first activation to the last recorded state change; before the first change nothing is charged -/
+theorem source_time_partition (cfg : SrcCfg) (acts : List SrcState.Act)
+    (hok : (SrcState.runActs (SrcState.init cfg) acts).flagged = false) :
+    let s := SrcState.runActs (SrcState.init cfg) acts
+    s.clock.tot.length = 3 ∧
+    match s.clock.last with
+    | none => s.clock.tot.sum = 0
+    | some l => l ≤ s.now ∧ ∃ t0, s.tStart = some t0 ∧ t0 ≤ l ∧ s.clock.tot.sum = l - t0 := by
+  have h := SrcState.run_sc acts hok (SrcState.init_sc cfg)
+  exact ⟨h.len, h.ok.2⟩
 
 end FsVerif.Props.C17
